@@ -171,29 +171,38 @@ class Ctx:
         return r
 
     # ---------------------------------------------------------------- Go driver
-    def build_driver(self, race=False):
-        key = "driver_race" if race else "driver"
-        if self._driver and self._driver.get(key):
-            return self._driver[key]
+    def build_driver(self, sub, race=False):
+        """Build harness/cmd/<sub> against the CURRENT working tree of the repository (-tags verif).
+        VERIF_REPO=<dir> points the harness at another checkout (used to try seeded changes in a
+        scratch worktree without touching /repo)."""
+        key = sub + ("_race" if race else "")
         self._driver = self._driver or {}
-        bind = WORK / "bin"
+        if key in self._driver:
+            return self._driver[key]
+        bind = self.work / "bin"
         bind.mkdir(parents=True, exist_ok=True)
         out = bind / key
         h = ROOT / "harness"
-        sync_gosum(h)
         cmd = ["go", "build", "-tags", "verif", "-o", str(out)]
+        if str(REPO) != "/repo":
+            mf = bind / "alt.mod"
+            mf.write_text((h / "go.mod").read_text().replace("=> /repo", "=> " + str(REPO)))
+            shutil.copy(REPO / "go.sum", bind / "alt.sum")
+            cmd += ["-modfile", str(mf)]
+        else:
+            sync_gosum(h)
         if race:
             cmd.append("-race")
-        cmd.append("./cmd/driver")
+        cmd.append("./cmd/" + sub)
         p = subprocess.run(cmd, cwd=h, env=goenv(), stdout=subprocess.PIPE, stderr=subprocess.STDOUT, text=True)
         if p.returncode != 0:
-            raise Infra("driver build failed (the tree under /repo must compile with -tags verif):\n" + tail(p.stdout, 40))
+            raise Infra("driver build failed (the tree under %s must compile with -tags verif):\n" % REPO + tail(p.stdout, 40))
         self._driver[key] = out
         return out
 
     def drive(self, sub, infile, outfile, args=(), timeout=900, race=False, env=None, allow_fail=False):
-        drv = self.build_driver(race=race)
-        cmd = ["timeout", str(timeout), str(drv), sub, "-in", str(infile), "-out", str(outfile),
+        drv = self.build_driver(sub, race=race)
+        cmd = ["timeout", str(timeout), str(drv), "-in", str(infile), "-out", str(outfile),
                "-seed", str(self.seed)] + [str(a) for a in args]
         e = dict(os.environ)
         if env:
